@@ -393,7 +393,9 @@ pub fn check_stream(cfg: &StreamCfg, items: &[Item], diag: &Diag, out: &mut Outc
                     chosen = Some(r2);
                 }
             }
-            if bad || chosen.is_none() {
+            // when at least one variant read the item correctly the stream goes on with that reader:
+            // one bad variant must not hide what the same variant does on the following items
+            if chosen.is_none() || (bad && out.violations.len() > 2000) {
                 break;
             }
             rd = chosen.unwrap();
@@ -494,8 +496,13 @@ pub fn check_tail_exact(e: End, kind: &'static str, backend: &'static str, code:
         if p > 0 && rd.apply(&ROp::Skip(p as u16)) != RObs::Unit {
             continue;
         }
+        let f0 = crate::rd::fault_count();
         let o = rd.apply(rop);
         out.cov.transitions += 1;
+        if o == RObs::Err && crate::rd::fault_count() != f0 {
+            // an injected Interrupted may be reported as an error (C11)
+            continue;
+        }
         let mut fail: Option<(&str, String)> = None;
         match &o {
             RObs::Val(x) if *x == v => {
